@@ -173,6 +173,14 @@ type EqIn struct {
 	// an expression on a context must not depend on earlier evaluations)
 	Passes    [][]int `json:"passes,omitempty"`
 	Stateless bool    `json:"stateless,omitempty"`
+	// kind "alt": every group lists (template, context) pairs that must evaluate to the same string, each by
+	// the optimising and by the plain builder (eg. a constant written in a formula vs read from a group)
+	Alts [][]AltItem `json:"alts,omitempty"`
+}
+
+type AltItem struct {
+	Tmpl string `json:"tmpl"`
+	Ctx  Ctx    `json:"ctx"`
 }
 type Row struct {
 	Opt, Plain, Inl string
@@ -563,6 +571,9 @@ func runEq(e *EqIn) [][]string {
 	if e.Kind == "seq" {
 		return runEqSeq(e)
 	}
+	if e.Kind == "alt" {
+		return runEqAlt(e)
+	}
 	return runEqLib(e)
 }
 
@@ -745,6 +756,75 @@ func (g *gen) eqSeqCases() []Case {
 	return cases
 }
 
+
+func runEqAlt(e *EqIn) (groups [][]string) {
+	fail := func(msg string) [][]string { return [][]string{{"\x01" + msg, ""}} }
+	p := guarded(func() {
+		for _, alts := range e.Alts {
+			var g []string
+			for _, it := range alts {
+				for _, opt := range []bool{true, false} {
+					loadMu.Lock()
+					funclib.Additional = make(funclib.FunctionSet)
+					k, _ := funclib.NewKeyBuilderEx(opt).Compile(it.Tmpl)
+					loadMu.Unlock()
+					a, _ := evalCount(k, it.Ctx)
+					g = append(g, a)
+				}
+			}
+			groups = append(groups, g)
+		}
+	})
+	if p != "" {
+		return fail(p)
+	}
+	return
+}
+
+// {! formula}: compile-time simplification must give the run-time value. A constant operand written in
+// the formula vs the same constant read from a group (which nothing can fold), over ordinary, negative,
+// empty, missing, textual, infinite and NaN values of the variable, with absorbing / neutral constants
+// on either side of every operator
+func (g *gen) eqMathCases() []Case {
+	r := g.r
+	ops := []string{"*", "&", "&&", "||", "+", "-", "/", "|", "%", "^", "==", "<", ">=", "<<"}
+	// constant as written, and the numeral a group must hold to mean the same
+	consts := [][2]string{{"0", "0"}, {"1", "1"}, {"(3-3)", "0"}, {"(0-1)", "-1"}, {"2", "2"}, {"(2*0)", "0"}, {"(1||0)", "1"}, {"0.5", "0.5"}}
+	vals := []string{"5", "-3", "0", "", "abc", "inf", "-inf", "nan", "1e400", "2.5", "-0"}
+	var cases []Case
+	for n := 0; n < 14; n++ {
+		op := ops[n%len(ops)]
+		if n >= len(ops) {
+			op = Pick(r, ops[:4])
+		}
+		var alts [][]AltItem
+		for _, c := range consts {
+			for _, side := range []bool{false, true} {
+				var fC, fG string
+				if side {
+					fC, fG = c[0]+op+"[0]", "[1]"+op+"[0]"
+				} else {
+					fC, fG = "[0]"+op+c[0], "[0]"+op+"[1]"
+				}
+				wrap := Pick(r, []string{"%s", "2+%s", "(%s)*3", "%s-1", "1&&(%s)"})
+				fC, fG = fmt.Sprintf(wrap, fC), fmt.Sprintf(wrap, fG)
+				// a few values per shape (all of them would be 176 evaluations per case)
+				for k := 0; k < 3; k++ {
+					v := vals[(n+k*5+len(alts))%len(vals)]
+					items := []AltItem{
+						{`{! "` + fC + `"}`, Ctx{M: []string{v, c[1]}, K: map[string]string{}}},
+						{`{! "` + fG + `"}`, Ctx{M: []string{v, c[1]}, K: map[string]string{}}},
+					}
+					alts = append(alts, items)
+				}
+			}
+		}
+		e := &EqIn{Kind: "alt", Alts: alts}
+		cases = append(cases, mkEqCase(e, runEq(e), []string{"math-const-vs-group", "math-op:" + op}))
+	}
+	return cases
+}
+
 // funcs-file functions whose body reaches a stage that remembers what it saw (time / buckettime with an
 // auto-detected layout) or other time helpers, called with arguments mixing constant text and captures:
 // call (optimising, plain) = inlined body (optimising, plain) on every context
@@ -807,6 +887,64 @@ func (g *gen) eqFnTimeCases() []Case {
 			tags = append(tags, "kf:C10-time-probe-through-function")
 		}
 		cases = append(cases, mkEqCase(e, runEq(e), tags))
+	}
+	return cases
+}
+
+
+// funcs-file bodies in which white space is significant: runs of blanks and tabs in literal text and in
+// quoted arguments, leading blanks after the name, blanks before a continuation backslash, a tab instead
+// of the blank after the name (no definition). Modelled cases: loader, call and inlined body byte for byte
+func (g *gen) whitespaceCases() []Case {
+	r := g.r
+	gap := func() string { return Pick(r, []string{"  ", "   ", "\t", " \t ", "  \t"}) }
+	type wc struct {
+		name, body string   // body with {0} {1}
+		args       []string // argument texts of the call (words or captures)
+		pre, post  string   // literal text around the call
+	}
+	g1, g2, g3 := gap(), gap(), gap()
+	list := []wc{
+		{"cols", "{0}" + g1 + "|" + g2 + "{1}", []string{"ab", "cd"}, "[", "]"},
+		{"cols", "{0}" + g1 + "|" + g2 + "{1}", []string{"{0}", "{1}"}, "", ""},
+		{"ld", g1 + "x{0}", []string{"a"}, "[", "]"},
+		{"q", `{eq {0} "a` + g1 + `b"}:{len "p` + g2 + `q"}`, []string{"{0}"}, "", ""},
+		{"q2", `{if {0} "yes` + g1 + `no" "` + g2 + `"}!`, []string{"{1}"}, "<", ">"},
+		{"sel", `{select "x` + g1 + `y` + g2 + `z" {0}}` + g3 + `.`, []string{"1"}, "", ""},
+		{"mix", "a" + g1 + "{0}" + g2 + "{prefix {1} ab}" + g3 + "z", []string{"{0}", "{1}"}, "", ""},
+		{"tabname\t", "{0}", []string{"a"}, "", ""}, // a tab after the name: no blank, no expression
+		{"w", "{sumi {0}" + gap() + "{1}}" + g1 + "end", []string{"4", "{2}"}, "", ""},
+	}
+	var cases []Case
+	for _, w := range list {
+		phrase := w.name + " " + w.body
+		if strings.HasSuffix(w.name, "\t") {
+			phrase = w.name + w.body
+		}
+		cont := false
+		lines := g.layoutDef(phrase, &cont)
+		name := strings.TrimSpace(w.name)
+		call := "{" + name
+		inl := w.body
+		for i, a := range w.args {
+			call += " " + a
+			inl = strings.ReplaceAll(inl, fmt.Sprintf("{%d}", i), "\x02"+fmt.Sprint(i)+"\x03")
+		}
+		for i, a := range w.args {
+			inl = strings.ReplaceAll(inl, "\x02"+fmt.Sprint(i)+"\x03", a)
+		}
+		call += "}"
+		in := Input{Funcs: strings.Join(lines, "\n") + "\n", Tmpl: w.pre + call + w.post, Inl: w.pre + inl + w.post, W: 2,
+			Ctxs: []Ctx{{M: []string{"a" + g1 + "b", "abc", "7"}, K: map[string]string{}}, {M: []string{"a b", "", "x"}, K: map[string]string{}}, {M: []string{}, K: map[string]string{}}}}
+		if !loadNames(in.Funcs)[name] {
+			in.Inl = in.Tmpl // not registered (the tab case): nothing to inline
+		}
+		cc := compileCase(in)
+		tags := []string{"funcs-file", "funcs-whitespace"}
+		if cont {
+			tags = append(tags, "funcs-continuation")
+		}
+		cases = append(cases, mkCase(in, cc.evalPlain(), true, tags))
 	}
 	return cases
 }
@@ -1488,8 +1626,10 @@ func c10Gen(r *Rng, n int, tier string) []Case {
 	if tier != "quick" {
 		nTimed = 40
 	}
+	cases = append(cases, g.whitespaceCases()...)
 	cases = append(cases, g.eqLibCases()...)
 	cases = append(cases, g.eqSeqCases()...)
+	cases = append(cases, g.eqMathCases()...)
 	cases = append(cases, g.eqFnTimeCases()...)
 	cases = append(cases, g.eqCliCases()...)
 	if rareBin != "" {
@@ -1524,6 +1664,8 @@ func main() {
 			"every template is compiled by funclib.NewKeyBuilderEx(true) and (false) and evaluated on 1-3 generated contexts plus the all-empty context with a look-up-counting context, then 3 rounds from each of 1-8 goroutines sharing the compiled expressions; " +
 			"timed cases ({time now|live|delta} plain, nested, inside a funcs-file function, inside @map) are evaluated twice 1.1 s apart and only 'did the value change' is observed. " +
 			"equality-only cases (no model prediction): 30 templates over helpers that are not modelled (time with auto-detected / given formats, buckettime, timeformat, durations, floats, format, @split/@join/@slice/@select/@range, paths, json, !, byte sizes, repeat/bar/color, lookup/load) with constant, dynamic and mixed text in the arguments and seeded dates/numbers: optimising builder = plain builder on every context, the all-empty one last; " +
+			"9 functions-file cases with significant white space (runs of 2-3 blanks and tabs in literal text and inside quoted arguments, leading blanks after the name, blanks before a continuation backslash, a tab instead of the blank after the name), modelled: loader result, call and inlined body byte for byte; " +
+			"14 formula cases ({! ..}, one per operator * & && || + - / | % ^ == < >= <<): a constant operand written in the formula (0 1 2 0.5 (3-3) (0-1) (2*0) (1||0), on either side, bare or inside a larger formula) vs the same constant read from a group, for values of the variable among 5 -3 0 2.5 -0 empty missing text inf -inf nan 1e400, optimising and plain builder: all equal (compile-time folding must give the run-time value); " +
 			"18 sequence cases (time / buckettime / timeformat / timeattr with explicit format and time-zone arguments, named formats, a constant prefix plus a capture, a named key, nested in sumi/timeformat, durations, floats/json/format; 3 with the auto-detected layout): three evaluation sequences per template on ONE compiled expression - the all-empty context (the optimiser's probe value) first, unparseable values, the same value on consecutive evaluations, a bad value first, a seeded shuffle - step by step: optimising = plain = a fresh plain compile = a fresh optimising compile of that step (for the auto-detected layout, which is remembered by design, only optimising = plain); " +
 			"11 funcs-file cases whose body reaches time/buckettime (auto-detected layout, remembered by the stage), timeformat, timeattr, duration through {i}, a later definition calling an earlier one, called with arguments mixing constant text and captures: call (optimising, plain) = inlined body (optimising, plain) on every context, every builder compiled freshly; " +
 			"11 command-line cases: the rare binary built from $VERIF_REPO, a generated functions file (random layout) whose body has an argument-free sub-expression governed by a global switch ({hi ..} {hf ..} --noformat, {color ..} --color/--nocolor, {bar ..} --nounicode, {load ..} --noload), `rare <switch> --funcs F expression <call>`, the same with --no-optimize, and `rare <switch> expression <inlined body>` with and without --no-optimize (one case through RARE_FUNC_FILES): the four stdout+exit-code strings must be equal. " +
